@@ -15,6 +15,9 @@ use std::rc::Rc;
 #[derive(Clone, Copy, Debug, PartialEq, Eq, Hash)]
 pub enum How {
   Successive,
+  /// as Successive, but every subscription is explicitly unsubscribed once it has run dry,
+  /// before the next clone is subscribed
+  SuccessiveUnsub,
   /// the next clone is subscribed a few steps after the previous one started
   Overlapping,
   /// the next clone is subscribed from inside the first item callback of the previous one
@@ -128,7 +131,7 @@ pub fn random_case(r: &mut Rng, max_ops: usize) -> Case {
       *id = 50 + n;
     }
   }
-  Case { chain, subs: 2 + r.below(2), how: [How::Successive, How::Successive, How::Overlapping, How::Nested][r.below(4)] }
+  Case { chain, subs: 2 + r.below(2), how: [How::Successive, How::SuccessiveUnsub, How::Overlapping, How::Nested][r.below(4)] }
 }
 
 pub struct Obs {
@@ -183,12 +186,19 @@ pub fn observe(c: &Case) -> Result<Obs, String> {
     let log = w.log.clone();
     let mut clones: Vec<Option<_>> = clones.into_iter().map(Some).collect();
     match c.how {
-      How::Successive => {
+      How::Successive | How::SuccessiveUnsub => {
         for (j, cl) in clones.iter_mut().enumerate() {
           starts.push(vtime::now());
           log.mark(0, "subscribe", j as i64);
-          std::mem::forget(cl.take().unwrap().actual_subscribe(Probe::new(1 + j as u32, &log)));
+          let u = cl.take().unwrap().actual_subscribe(Probe::new(1 + j as u32, &log));
           w.drain(Policy::Fifo, horizon + vtime::now(), &mut rng);
+          if c.how == How::SuccessiveUnsub {
+            // giving up one subscription must not reach into the next clone's
+            u.unsubscribe();
+            w.drain(Policy::Fifo, horizon + vtime::now(), &mut rng);
+          } else {
+            std::mem::forget(u);
+          }
         }
       }
       How::Overlapping => {
